@@ -615,7 +615,15 @@ fn index_set(mut left: Object, index: Object, value: Object) -> Result<Object, E
     }
     match left.tag() {
         Type::Array => index_set_array(left.as_vec_mut(), index.as_int(), value)?,
-        Type::String => index_set_string(left.as_string_mut(), index.as_int(), value)?,
+        Type::String => {
+            // The new value can be the very string that is being modified (s[0] = s),
+            // so take a copy of its text before we start changing anything
+            let replacement = match value.tag() {
+                Type::String => Some(value.as_str().to_owned()),
+                _ => None,
+            };
+            index_set_string(left.as_string_mut(), index.as_int(), replacement)?
+        }
         _ => {
             return Err(Error::TypeError(format!(
                 "kan niet indexeren in objecten van type {}",
@@ -641,7 +649,11 @@ fn index_set_array(array: &mut Vec<Object>, mut index: isize, value: Object) -> 
     Ok(())
 }
 
-fn index_set_string(string: &mut String, mut index: isize, value: Object) -> Result<(), Error> {
+fn index_set_string(
+    string: &mut String,
+    mut index: isize,
+    value: Option<String>,
+) -> Result<(), Error> {
     let strlen = string.chars().count();
     if index < 0 {
         index += strlen as isize;
@@ -653,11 +665,14 @@ fn index_set_string(string: &mut String, mut index: isize, value: Object) -> Res
         ));
     }
 
-    if value.tag() != Type::String {
-        return Err(Error::TypeError(
-            "kan geen niet-string invoegen op string object".to_string(),
-        ));
-    }
+    let value = match value {
+        Some(value) => value,
+        None => {
+            return Err(Error::TypeError(
+                "kan geen niet-string invoegen op string object".to_string(),
+            ))
+        }
+    };
 
     string.replace_range(
         string
